@@ -266,7 +266,7 @@ package parsers
 //@   ensures[C03] resDepth(c) >= 0 && (result == nil ==> resDepth(c) == old(resDepth(c)) + 1)
 //@   ensures[C03] resOK(c)
 //@   opaque rpnDepth, resOKn
-//@   ensures[C02] (result == nil) == (E0(toks(c), tys(), old(c.currentTokenIndex)) >= 0)
+//@   ensures[C02,C01] (result == nil) == (E0(toks(c), tys(), old(c.currentTokenIndex)) >= 0)
 //@   ensures[C02] result == nil ==> c.currentTokenIndex == E0(toks(c), tys(), old(c.currentTokenIndex))
 //@   ensures[C02,C03] idxInv(c) && sameTokens(c) && errHasCode(result)
 //@   ensures[C02] c.currentTokenIndex >= old(c.currentTokenIndex)
@@ -288,7 +288,7 @@ package parsers
 //@   ensures[C03] resDepth(c) >= 0 && (result == nil ==> resDepth(c) == old(resDepth(c)) + 1)
 //@   ensures[C03] resOK(c)
 //@   opaque rpnDepth, resOKn
-//@   ensures[C02] (result == nil) == (E1(toks(c), tys(), old(c.currentTokenIndex)) >= 0)
+//@   ensures[C02,C01] (result == nil) == (E1(toks(c), tys(), old(c.currentTokenIndex)) >= 0)
 //@   ensures[C02] result == nil ==> c.currentTokenIndex == E1(toks(c), tys(), old(c.currentTokenIndex))
 //@   ensures[C02,C03] idxInv(c) && sameTokens(c) && errHasCode(result)
 //@   ensures[C02] c.currentTokenIndex >= old(c.currentTokenIndex)
@@ -305,7 +305,7 @@ package parsers
 //@   ensures[C03] resDepth(c) >= 0 && (result == nil ==> resDepth(c) == old(resDepth(c)) + 1)
 //@   ensures[C03] resOK(c)
 //@   opaque rpnDepth, resOKn
-//@   ensures[C02] (result == nil) == (E2(toks(c), tys(), old(c.currentTokenIndex)) >= 0)
+//@   ensures[C02,C01] (result == nil) == (E2(toks(c), tys(), old(c.currentTokenIndex)) >= 0)
 //@   ensures[C02] result == nil ==> c.currentTokenIndex == E2(toks(c), tys(), old(c.currentTokenIndex))
 //@   ensures[C02,C03] idxInv(c) && sameTokens(c) && errHasCode(result)
 //@   ensures[C02] c.currentTokenIndex >= old(c.currentTokenIndex)
@@ -327,7 +327,7 @@ package parsers
 //@   ensures[C03] resDepth(c) >= 0 && (result == nil ==> resDepth(c) == old(resDepth(c)) + 1)
 //@   ensures[C03] resOK(c)
 //@   opaque rpnDepth, resOKn
-//@   ensures[C02] (result == nil) == (E3(toks(c), tys(), old(c.currentTokenIndex)) >= 0)
+//@   ensures[C02,C01] (result == nil) == (E3(toks(c), tys(), old(c.currentTokenIndex)) >= 0)
 //@   ensures[C02] result == nil ==> c.currentTokenIndex == E3(toks(c), tys(), old(c.currentTokenIndex))
 //@   ensures[C02,C03] idxInv(c) && sameTokens(c) && errHasCode(result)
 //@   ensures[C02] c.currentTokenIndex >= old(c.currentTokenIndex)
@@ -349,7 +349,7 @@ package parsers
 //@   ensures[C03] resDepth(c) >= 0 && (result == nil ==> resDepth(c) == old(resDepth(c)) + 1)
 //@   ensures[C03] resOK(c)
 //@   opaque rpnDepth, resOKn
-//@   ensures[C02] (result == nil) == (E4(toks(c), tys(), old(c.currentTokenIndex)) >= 0)
+//@   ensures[C02,C01] (result == nil) == (E4(toks(c), tys(), old(c.currentTokenIndex)) >= 0)
 //@   ensures[C02] result == nil ==> c.currentTokenIndex == E4(toks(c), tys(), old(c.currentTokenIndex))
 //@   ensures[C02,C03] idxInv(c) && sameTokens(c) && errHasCode(result)
 //@   ensures[C02] c.currentTokenIndex >= old(c.currentTokenIndex)
@@ -371,7 +371,7 @@ package parsers
 //@   ensures[C03] resDepth(c) >= 0 && (result == nil ==> resDepth(c) == old(resDepth(c)) + 1)
 //@   ensures[C03] resOK(c)
 //@   opaque rpnDepth, resOKn
-//@   ensures[C02] (result == nil) == (E5(toks(c), tys(), old(c.currentTokenIndex)) >= 0)
+//@   ensures[C02,C01] (result == nil) == (E5(toks(c), tys(), old(c.currentTokenIndex)) >= 0)
 //@   ensures[C02] result == nil ==> c.currentTokenIndex == E5(toks(c), tys(), old(c.currentTokenIndex))
 //@   ensures[C02,C03] idxInv(c) && sameTokens(c) && errHasCode(result)
 //@   ensures[C02] c.currentTokenIndex >= old(c.currentTokenIndex)
@@ -393,7 +393,7 @@ package parsers
 //@   ensures[C03] resDepth(c) >= 0 && (result == nil ==> resDepth(c) == old(resDepth(c)) + 1)
 //@   ensures[C03] resOK(c)
 //@   opaque rpnDepth, resOKn
-//@   ensures[C02,slow] (result == nil) == (E6(toks(c), tys(), old(c.currentTokenIndex)) >= 0)
+//@   ensures[C02,C01,slow] (result == nil) == (E6(toks(c), tys(), old(c.currentTokenIndex)) >= 0)
 //@   ensures[C02,slow] result == nil ==> c.currentTokenIndex == E6(toks(c), tys(), old(c.currentTokenIndex))
 //@   ensures[C02,C03] idxInv(c) && sameTokens(c) && errHasCode(result)
 //@   ensures[C02] c.currentTokenIndex >= old(c.currentTokenIndex)
